@@ -456,7 +456,8 @@ def rule_res1(ctx: Ctx) -> RuleResult:
         if len(rets) == 1 and isinstance(rets[0].value, ast.Name):
             R = rets[0].value.id
             defs = [d for d in all_defs(h, R) if isinstance(d, (ast.Assign, ast.AnnAssign))]
-            src_ok = bool(defs) and all(norm(d.value) in (f"set({vararg})", f"set({R})", "set(types)", f"frozenset({vararg})") or
+            src_ok = bool(defs) and all(norm(d.value) in (f"set({vararg})", f"set({R})", "set(types)", f"frozenset({vararg})",
+                                                         f"{vararg}.copy()", f"set({vararg}).copy()") or
                                         (isinstance(d.value, ast.Call) and norm(d.value.func) == "set" and d.value.args
                                          and isinstance(d.value.args[0], ast.Name)) for d in defs)
             muts = [x for x in walk_no_nested(h.node) if isinstance(x, ast.Call) and isinstance(x.func, ast.Attribute)
@@ -663,6 +664,11 @@ def rule_rt1(ctx: Ctx) -> RuleResult:
                 expanded += [norm(x.value) for x in walk_no_nested(h.node) if isinstance(x, ast.Return) and x.value is not None]
             else:
                 expanded.append(norm(v))
+        # `if self: return 'true'` / `return 'false'` is the conditional expression of the table written as statements
+        if sorted(expanded) == ["'false'", "'true'"] and any(
+                isinstance(x, ast.If) and norm(x.test) in ("self", "bool(self)") and len(x.body) == 1 and isinstance(x.body[0], ast.Return)
+                and norm(x.body[0].value) == "'true'" for x in walk_no_nested(f.node)):
+            expanded = ["'true' if self else 'false'"]
         bad = [e for e in expanded if e not in RENDER_INVERSE_OK]
         if not rets:
             rr.ob(f.relpath, f.qualname, "to_representation", st, VIOLATED, "nothing is returned", f.node.lineno)
